@@ -237,6 +237,11 @@ def shallow_events(F, body, side):
                  r'position|max|min|unzip)$', r'^std::iter::FromIterator::from_iter$', r'^std::iter::Extend::extend$') and c.args:
             for cb in lazy_closures(F, body, c.args[-1] if c.is_(r'extend$|from_iter$') else c.args[0]):
                 evs.append(Inline(cb, d + 1, b))
+        called = lib.called_closures(F, body, c)
+        if called:
+            for cb in called:
+                evs.append(Inline(cb, d, b))
+            continue
         clos = lib.closure_args(F, c)
         if clos:
             extra = 1 if c.is_(r'^std::iter::Iterator::') else 0
@@ -1349,7 +1354,7 @@ def _chain_nonempty(F, fb, op, depth=0):
     """Can the LinkedList held by operand `op` at its use be shown non-empty?  (ok, why-not)"""
     if depth > 4 or not is_place(op):
         return False, 'not a place'
-    srcs = copy_chain_sources(fb, op, through_calls=(r'^std::clone::Clone::clone$',) + tuple(IDENTITY_CALLS))
+    srcs = copy_chain_sources(fb, op, through_calls=(r'^std::clone::Clone::clone$', r'^std::ops::Try::branch$') + tuple(IDENTITY_CALLS))
     if not srcs:
         return False, 'unknown origin'
     for s in srcs:
